@@ -11,6 +11,7 @@ import TsV.Model.Writer
 import TsV.Model.Config
 import TsV.Model.Annotation
 import TsV.Model.Files
+import TsV.Lemmas.C10_Spec
 import TsV.Lemmas.C15_Driver
 import TsV.Lemmas.C09_Defs
 import TsV.Lemmas.C04_TypeScript
@@ -231,6 +232,11 @@ def handle (st : DriverState) (req : Sx) : DriverState × J :=
       | .list [.str a, .str b] => some (a, b)
       | _ => none
     ({ st with snake := parsed }, .obj [("ok", .num parsed.length)])
+  | .list [.atom "lexok", .atom lang, .str text] =>
+    -- C10: the lexical specification `C10Spec.lexOk` evaluated on a given text
+    (st, match C10Spec.langOfName lang with
+      | some l => .obj [("ok", .bool (C10Spec.lexOk l text))]
+      | none => bad "lexok")
   | .list [.atom "int", .atom op, a] =>
     (st, match a.asInt? with
       | none => bad "int"
